@@ -1317,6 +1317,9 @@ where
                     if inner.flags.contains(Flags::WRITE_DISCONNECT) {
                         Poll::Ready(Ok(()))
                     } else {
+                        // however shutdown was entered, it is bounded by the disconnect timeout
+                        inner.as_mut().ensure_linger_timer(cx);
+
                         // flush buffer and wait on blocked
                         ready!(inner.as_mut().poll_flush(cx))?;
                         Pin::new(inner.as_mut().project().io.as_mut().unwrap())
